@@ -11,11 +11,11 @@
                                            body, normal or panic
    pkg/cl/block.go, return-from.go, tagbody.go, go.go, let.go, ignore-errors.go
                                            return-from / go do not unwind: they RETURN a marker value
-                                           (a slip.ReturnResult / cl.GoTo pointer) which each enclosing form passes up or not:
-                                           let and block (return marker) return at once; with-mutex-lock and
-                                           ignore-errors only pass on the value of their LAST form (with forms left
-                                           they carry on and the marker is dropped: C07); tagbody skips to its tag or
-                                           its end; leaving with-mutex-lock this way runs the deferred Unlock
+                                           (a slip.ReturnResult / slip.GoTo pointer) which every enclosing form that
+                                           evaluates a body passes up at once, from any position of the body (after the
+                                           repairs C07-1..21: the model ASSUMES them); a block consumes the return marker
+                                           of its name, a tagbody the go marker of one of its tags;
+                                           leaving with-mutex-lock this way runs the deferred Unlock
    pkg/gi/run.go                           `go func() { form.Eval(s) }()` : no recover, an uncaught error
                                            kills the process (status "crashed" below)
    pkg/clos/set-synchronized.go, hasslots.go, scope.go, locker.go, package.go
@@ -224,27 +224,21 @@ Definition step (s : state) (i k : nat) : option state :=
           else
             match ext r with
             | Some (tb, b) =>
-                (* the marker is the value of the form just evaluated in frame f.  with-mutex-lock, ignore-errors
-                   (and block, for a go marker) only pass on the value of their LAST form: with forms left they
-                   carry on and the marker is dropped; let and block (return marker) return at once; tagbody
-                   skips to the tag, or to its end, and returns nil; a return marker means nothing to it *)
-                let weak := match fops f with
-                            | [] => match fk f with
-                                    | KLock m => Some (set_rm s i (set_stk r rest) m None)      (* deferred Unlock *)
-                                    | _ => Some (set_r s i (set_stk r rest))
-                                    end
-                            | _ :: _ => Some (set_r s i (set_ext r None))
-                            end in
+                (* the marker is the value of the form just evaluated in frame f: every form that evaluates a body
+                   passes it up at once, from any position of the body (the forms left are skipped).  with-mutex-lock
+                   releases its mutex on the way (the deferred Unlock); a block consumes the return marker that
+                   carries its name; a tagbody consumes the go marker that carries its tag (the tag stands at its
+                   end: it returns nil); every other combination passes the marker on unchanged *)
                 match fk f with
                 | KPlain => Some (set_r s i (set_stk r rest))
-                | KLock _ => weak
-                | KCatch => weak
+                | KLock m => Some (set_rm s i (set_stk r rest) m None)
+                | KCatch => Some (set_r s i (set_stk r rest))
                 | KBlock false b' =>
-                    if tb then weak
+                    if tb then Some (set_r s i (set_stk r rest))
                     else Some (set_r s i (set_ext (set_stk r rest) (if Nat.eqb b' b then None else Some (tb, b))))
-                | KBlock true _ =>
-                    if tb then Some (set_r s i (set_ext (set_stk r rest) None))
-                    else Some (set_r s i (set_ext r None))
+                | KBlock true b' =>
+                    if tb && Nat.eqb b' b then Some (set_r s i (set_ext (set_stk r rest) None))
+                    else Some (set_r s i (set_stk r rest))
                 end
             | None =>
             match fops f with
